@@ -1303,8 +1303,12 @@ fn run_datadog(st: &mut St, r: &mut Rng, n: usize, deadline: Instant) {
         }
         // the first batches of a run have the sizes at which container headers change their
         // encoding (msgpack fixarray / array16 / array32, thrift short / long list headers)
+        // one batch per `--huge` shard is large in bytes rather than in records: a request body
+        // of more than 30 MB (3001 records of 10 kB), beyond any default body limit of an agent
+        let heavy = HUGE.load(Ordering::SeqCst) && k == BOUNDARY_SIZES.len();
         let sz = match boundary_size(k) {
             Some(b) => b,
+            None if heavy => 3001,
             None => match r.below(5) {
                 0 => 1,
                 1 => r.below(2000),
@@ -1317,8 +1321,14 @@ fn run_datadog(st: &mut St, r: &mut Rng, n: usize, deadline: Instant) {
         if BOUNDARY_SIZES.get(k).is_some() {
             st.stat("boundary_size_batches", 1);
         }
-        let big = r.chance(1, 4) && sz < 5000;
+        let big = r.chance(1, 4) && sz < 5000 && !heavy;
         let mut batch: Vec<SpanRecord> = (0..sz).map(|_| rand_record(r, big)).collect();
+        if heavy {
+            for rec in batch.iter_mut() {
+                rec.properties.push(("pad".into(), "p".repeat(10_000).into()));
+            }
+            st.stat("request_bodies_over_30_MB", 1);
+        }
         if share_span_ids(r, &mut batch) {
             st.stat("batches_with_shared_span_ids", 1);
         }
@@ -1462,6 +1472,8 @@ struct CaptureCtl {
     pending_polls: std::sync::atomic::AtomicUsize,
     /// the next export fails (after taking the batch)
     fail_next: AtomicBool,
+    /// pending exports are woken by another thread, a little later
+    wake_elsewhere: AtomicBool,
     /// exports whose future was driven to completion
     completed: std::sync::atomic::AtomicUsize,
     resources_set: Mutex<Vec<String>>,
@@ -1479,7 +1491,16 @@ impl std::future::Future for ExportFut {
     fn poll(mut self: std::pin::Pin<&mut Self>, cx: &mut std::task::Context<'_>) -> std::task::Poll<Self::Output> {
         if self.left > 0 {
             self.left -= 1;
-            cx.waker().wake_by_ref();
+            if self.ctl.wake_elsewhere.load(Ordering::SeqCst) {
+                // as a network exporter does: the wake-up comes later and from another thread
+                let w = cx.waker().clone();
+                std::thread::spawn(move || {
+                    std::thread::sleep(Duration::from_millis(2));
+                    w.wake();
+                });
+            } else {
+                cx.waker().wake_by_ref();
+            }
             return std::task::Poll::Pending;
         }
         self.ctl.completed.fetch_add(1, Ordering::SeqCst);
@@ -1525,6 +1546,19 @@ fn run_otel(st: &mut St, r: &mut Rng, n: usize, deadline: Instant) {
     if !cap.0.lock().unwrap().is_empty() {
         st.viol("export-for-empty-batch", "export() was called for an empty batch".into());
     }
+    // From here on report() runs on another thread than the one that constructed the reporter, as
+    // it does under set_reporter (collector / flush thread), and is awaited with a watchdog.
+    let (btx, brx) = std::sync::mpsc::channel::<Vec<SpanRecord>>();
+    let (atx, arx) = std::sync::mpsc::channel::<bool>();
+    std::thread::spawn(move || {
+        let mut rep = rep;
+        while let Ok(b) = brx.recv() {
+            let ok = std::panic::catch_unwind(std::panic::AssertUnwindSafe(|| rep.report(b))).is_ok();
+            if atx.send(ok).is_err() {
+                break;
+            }
+        }
+    });
     for k in 0..n {
         if Instant::now() > deadline {
             break;
@@ -1552,10 +1586,26 @@ fn run_otel(st: &mut St, r: &mut Rng, n: usize, deadline: Instant) {
         // completion, and a failed export must not disturb the next batch
         let pend = if r.chance(1, 4) { 1 + r.below(3) } else { 0 };
         cap.1.pending_polls.store(pend, Ordering::SeqCst);
+        let elsewhere = pend > 0 && r.chance(1, 2);
+        cap.1.wake_elsewhere.store(elsewhere, Ordering::SeqCst);
+        if elsewhere {
+            st.stat("exports_woken_by_another_thread", 1);
+        }
         let fail = r.chance(1, 12);
         cap.1.fail_next.store(fail, Ordering::SeqCst);
         let done_before = cap.1.completed.load(Ordering::SeqCst);
-        rep.report(batch.clone());
+        let _ = btx.send(batch.clone());
+        match arx.recv_timeout(Duration::from_secs(30)) {
+            Ok(true) => {}
+            Ok(false) => {
+                st.viol("report-panicked", format!("otel batch #{}: report() panicked", k));
+                return;
+            }
+            Err(_) => {
+                st.viol("report-hung", format!("otel batch #{}: report() did not return within 30 s (export pending for {} poll(s), woken by {}; report() runs on another thread than OpenTelemetryReporter::new() did)", k, pend, if elsewhere { "another thread" } else { "itself" }));
+                return;
+            }
+        }
         st.evals += 1;
         st.distinct += 1;
         st.records += batch.len();
